@@ -20,6 +20,7 @@ func init() {
 
 func runC06(c *Ctx) {
 	c06R1(c)
+	c06Strategies(c)
 	c06Validate(c)
 	c06Generate(c)
 	c06Random(c)
@@ -640,4 +641,56 @@ func (P *Program) reaches(root, target *ssa.Function, depth int) bool {
 		return false
 	}
 	return rec(root, depth)
+}
+
+// c06Strategies: every opaque-token validator of the strategies authenticates the
+// presented string with the HMAC core (or delegates to a strategy that does) on
+// every success exit — whatever the expiry branch taken.
+func c06Strategies(c *Ctx) {
+	const rule = "C06.R1"
+	n := 0
+	for _, sp := range expSpecs {
+		if sp.method == "ValidateUserCode" {
+			continue // user codes carry no MAC (too short); documented exemption
+		}
+		for _, fn := range c.Impls(sp.ifacePkg, sp.iface, sp.method) {
+			if sp.method == "ValidateAccessToken" && c.P.CallsNamed(fn, ".Decode", 3) {
+				continue // JWT access tokens: C06.R4 / C07.R1
+			}
+			ex := c.Explore(fn, strategyCfg(), "strategy")
+			if !c.complete(ex, rule, "strategy", fn) {
+				continue
+			}
+			if delegatesTo(ex, "."+sp.method) {
+				c.OK(rule, "strategy", fn, "mac-checked:"+sp.kind, "every success exit of the validator authenticates the presented string with the HMAC core").Layer = "delegates to the wrapped strategy"
+				continue
+			}
+			n++
+			tok := lastParam(fn)
+			ok, m := true, 0
+			var w *Path
+			for _, p := range ex.Paths {
+				if !p.Success() || p.Kind != "return" {
+					continue
+				}
+				m++
+				good := false
+				for _, e := range p.Calls(".Validate") {
+					if !e.Arg(len(e.Args)-1).Contains(tok.Key()) {
+						continue
+					}
+					if p.IsNil(e.Result) || unwrapStack(p.ErrRet()).Key() == e.Result.Key() {
+						good = true
+					}
+				}
+				if !good {
+					ok, w = false, p
+				}
+			}
+			c.Check(ok && m > 0, rule, "strategy", fn, "mac-checked:"+sp.kind, "every success exit of the validator authenticates the presented string with the HMAC core", "a success exit is reachable without HMACStrategy.Validate(token) having returned nil (e.g. on one expiry branch)", w)
+		}
+	}
+	if n < 4 {
+		c.RoleUnmatched(rule, "strategy", fmt.Sprintf("at least 4 opaque-token validators; found %d", n))
+	}
 }
